@@ -2,7 +2,7 @@
 # Runs, for every seeded change, the check(s) recorded for it in seeded/RESULTS.tsv (column 2) at the
 # quick tier and prints one line per change. Applies each patch to /repo and reverts it afterwards.
 cd "$(dirname "$0")/.." || exit 2
-grep -v '^#' seeded/RESULTS.tsv | while IFS="$(printf '\t')" read -r id check tier result note; do
+grep -v "^#" "${1:-seeded/RESULTS.tsv}" | while IFS="$(printf '\t')" read -r id check tier result note; do
   [ -n "$id" ] || continue
   out=$(tools/try_mutant.py seeded/$id/patch.diff $check 2>&1 | tail -1)
   echo "$id $check -> $out"
